@@ -52,6 +52,24 @@ def g_hw(tier):
         yield mk('hw/look/%s/%s/%s/%s' % (ln, cn, an, nn), stmts)
         if cn != 'none' and nn in ('y0', 'none'):
             yield mk('hw/look-if/%s/%s/%s/%s' % (ln, cn, an, nn), [If(B('==', Deref('INPT4'), C(3)), Block(stmts))])
+    # hardware statements in code that is jumped over: dead branches of constant conditions, goto, break, early return - they must
+    # not be executed (a jump whose target seems to follow "nothing" must stay when what it skips is an asm / hardware line)
+    for (t1, f1) in H:
+        for (t2, f2) in [(t, f) for t, f in H if t in ('asm_nop', 'asm_wsync', 'strobe', 'ld_hw', 'cs3')] if True else []:
+            base = 'hw/dead/%s|%s' % (t1, t2)
+            if tier == 'quick' and not stable_pick(base, 100, 50): continue
+            yield mk(base + '/if0', [If(C(0), Block([f1(), f2()])), A(V('vb'), C(1))])
+            yield mk(base + '/if0-bare', [If(C(0), f1(), bare=True), f2()])
+            yield mk(base + '/if1-else', [If(C(1), A(V('vb'), C(1)), Block([f1(), f2()])), f2()])
+            yield mk(base + '/goto', [Goto('done'), f1(), f2(), Label('done', A(V('vb'), C(1)))])
+            yield mk(base + '/goto-hw-target', [Goto('done'), f1(), Label('done', f2())])
+            yield mk(base + '/while0', [While(C(0), Block([f1(), f2()])), f2()])
+            yield mk(base + '/break', [A(V('vb'), C(2)), While(V('vb'), Block([ExprS(Inc('--', False, V('vb'))), Break(), f1()])), f2()])
+            yield mk(base + '/switch', [Switch(V('va'), [(1, [Break(), f1()]), (2, [f2(), Break()]), (None, [Break(), f1()])]), f2()])
+            yield mk(base + '/return', [If(V('va'), Block([f2(), Return()])), f1()])
+            yield mk(base + '/varcond', [If(V('va'), f1(), bare=True), f2()])
+            yield mk(base + '/varcond-else', [If(V('va'), f1(), f2(), bare=True)])
+            yield mk(base + '/inline-dead', [ExprS(Call('hwf', [])), f2()], funcs=[Func('hwf', None, [], Block([If(C(0), Block([f1()])), Return(), f1()]), inline=True)])
     for (t1, f1), (t2, f2) in itertools.product(H, H):
         pid = 'hw/if/%s|%s' % (t1, t2)
         if tier == 'quick' and not stable_pick(pid, 100, 40): continue
